@@ -83,7 +83,8 @@ def run(scenario, world):
     recipes = scenario['recipes']
     t = Table(recipes)
     for r in recipes:
-        t.get(r['h'])
+        if not r.get('late'):
+            t.get(r['h'])
     exact = lti(t)
     # two different solver objects feed a log-likelihood that can amplify
     # their 1e-13 disagreement by many orders; a wrong protocol / parameter /
@@ -396,6 +397,25 @@ def generate(rng, index, tier):
         recipes.append({'h': 'hp', 'kind': 'hierpost', 'hl': 'hl',
                         'prior': {'kind': 'gaussian', 'a': 0.5, 'b': 2.0}})
         targets = ['hl', 'hp']
+        late_targets = []
+        if rng.random() < 0.35:
+            # the SAME population model object is used again, later, for
+            # another number of individuals (as a controller does when it
+            # gets new data): built only when first used, and never mixed
+            # with the first likelihood afterwards
+            n_ids2 = rng.choice([k_ for k_ in (1, 2, 3, 4) if k_ != n_ids])
+            lls2 = []
+            for i in range(n_ids2):
+                add_ll('ll2_i%d' % i, shared=True)
+                recipes[-1]['id'] = 'id %d' % (i + 1)
+                lls2.append('ll2_i%d' % i)
+            hr2 = {'h': 'hl2', 'kind': 'hier', 'lls': lls2, 'pop': 'pop',
+                   'late': True}
+            if nc:
+                hr2['covariates'] = [_vals(rng, nc, 0.0, 0.4)
+                                     for _ in range(n_ids2)]
+            recipes.append(hr2)
+            late_targets = ['hl2']
     else:
         n_sim = rng.randint(2, 3)
         fpop = set_n_ids_recipe(_no_tg(gen_pop_recipe(
@@ -437,7 +457,9 @@ def generate(rng, index, tier):
         targets = ['fp']
     t = Table(recipes)
     points = {}
-    for h in targets:
+    if shape != 'hier':
+        late_targets = []
+    for h in targets + late_targets:
         obj = t.get(h)
         n = obj.n_parameters()
         if shape in ('hier', 'filter'):
@@ -545,6 +567,11 @@ def generate(rng, index, tier):
                 op['fault'] = {'at_run': rng.choice([0, 0, 1]),
                                'kind': rng.choice(['fail', 'fail', 'nan'])}
             ops.append(op)
+    for h in late_targets:
+        for _ in range(rng.randint(1, 2)):
+            ops.append({'op': 'check', 'on': h, 'point': rng.randint(0, 2),
+                        'order': rng.choice(['s1_first', 'plain_first']),
+                        'fd': [rng.randint(0, 60) for _ in range(4)]})
     return {'property': PROP, 'recipes': recipes, 'ops': ops,
             'points': points,
             'profile': {'shape': shape, 'faults': faults_on,
